@@ -281,6 +281,7 @@ class Engine:
             self.dpos = 0
             self.pc = list(base_pc)
             self.obligations = []
+            self.inline = []
             self.trace = []
             self.new_branches = []
             self.memo = {}
@@ -293,8 +294,9 @@ class Engine:
                 out = ("return", r.val)
             except PathAbort:
                 out = ("abort", None)
-            results.append(PathResult(self.pc, out[0], out[1], self.obligations, self.trace,
-                                      list(self.decisions), self.state))
+            pr = PathResult(self.pc, out[0], out[1], self.obligations, self.trace, list(self.decisions), self.state)
+            pr.inline = self.inline   # side obligations discharged on the spot by the in-process solver
+            results.append(pr)
             work.extend(self.new_branches)
             if len(results) > self.max_paths:
                 raise Unsupported(f"more than {self.max_paths} paths")
@@ -323,6 +325,7 @@ class Engine:
         # (dropping hypotheses is sound for validity); counted in ``inline_discharged``
         if not self.feasible(z3.Not(cond)):
             self.inline_discharged = getattr(self, "inline_discharged", 0) + 1
+            self.inline.append(name)
             return
         self.obligations.append((name, list(self.pc), cond))
 
@@ -1219,6 +1222,8 @@ class Engine:
             if not any(is_sym(x) for x in (a_, b_, c_)):
                 return range(a_, b_, c_)
             return SymRange(a_, b_, c_)
+        if n == "enumerate" and len(args) == 1 and isinstance(args[0], SymRange):
+            return ("enumerate", args[0])
         if n == "enumerate" and len(args) == 1 and isinstance(args[0], (list, tuple)):
             return list(enumerate(args[0]))
         if n == "zip" and all(isinstance(a_, (list, tuple)) for a_ in args):
